@@ -8,7 +8,7 @@
    laws are proved from the IEEE specification of the primitive comparison; the counting fact is
    not proved for binary64, where it only holds for series shorter than 2^53). *)
 From Coq Require Import List ZArith Bool Reals Lra Lia Floats.
-From NeatModel Require Import Res Stats StatsSpec.
+From NeatModel Require Import Res Stats StatsSpec StatsQuantile.
 Import ListNotations.
 
 Section Total.
@@ -167,16 +167,18 @@ Theorem min_total x : exists v, F_min N x = Ok v.
 Proof.
   destruct x as [|x0 x]; [simpl; eauto|].
   change (F_min N (x0 :: x)) with (index (x0 :: x) (min_loop N (x0 :: x) 0 (n_nan N) 0)).
-  apply index_total. pose proof (min_loop_range (x0 :: x) 0 (n_nan N) 0 ltac:(lia) (or_intror ltac:(discriminate))) as H.
-  simpl Z.add in H. exact H.
+  apply index_total. assert (H : (0 <= min_loop N (x0 :: x) 0 (n_nan N) 0 < 0 + len (x0 :: x))%Z).
+  { apply min_loop_range; [lia | right; discriminate]. }
+  lia.
 Qed.
 
 Theorem max_total x : exists v, F_max N x = Ok v.
 Proof.
   destruct x as [|x0 x]; [simpl; eauto|].
   change (F_max N (x0 :: x)) with (index (x0 :: x) (max_loop N (x0 :: x) 0 (n_nan N) 0)).
-  apply index_total. pose proof (max_loop_range (x0 :: x) 0 (n_nan N) 0 ltac:(lia) (or_intror ltac:(discriminate))) as H.
-  simpl Z.add in H. exact H.
+  apply index_total. assert (H : (0 <= max_loop N (x0 :: x) 0 (n_nan N) 0 < 0 + len (x0 :: x))%Z).
+  { apply max_loop_range; [lia | right; discriminate]. }
+  lia.
 Qed.
 End TotalMinMax.
 
@@ -251,7 +253,7 @@ Qed.
 
 Lemma f_ltb_asym (x y : float) : n_ltb fnum x y = true -> n_ltb fnum y x = false.
 Proof.
-  simpl. rewrite !ltb_spec. unfold SFltb. rewrite (SFcompare_swap (Prim2SF x) (Prim2SF y)).
+  simpl. rewrite !FloatAxioms.ltb_spec. unfold SFltb. rewrite (SFcompare_swap (Prim2SF x) (Prim2SF y)).
   destruct (SFcompare (Prim2SF x) (Prim2SF y)) as [[| |]|]; simpl; congruence.
 Qed.
 
@@ -265,16 +267,16 @@ Qed.
 
 Lemma f_isnan (x : float) : n_isnan fnum x = true -> Prim2SF x = S754_nan.
 Proof.
-  simpl. unfold is_nan. rewrite eqb_spec. unfold SFeqb. intros H.
+  simpl. unfold is_nan. rewrite FloatAxioms.eqb_spec. unfold SFeqb. intros H.
   destruct (Prim2SF x) eqn:E; try reflexivity; exfalso;
     rewrite SFcompare_refl in H by discriminate; discriminate.
 Qed.
 
 Lemma f_ltb_nan_l (x y : float) : n_isnan fnum x = true -> n_ltb fnum x y = false.
-Proof. intros H. apply f_isnan in H. simpl. rewrite ltb_spec, H. reflexivity. Qed.
+Proof. intros H. apply f_isnan in H. simpl. rewrite FloatAxioms.ltb_spec, H. reflexivity. Qed.
 Lemma f_ltb_nan_r (x y : float) : n_isnan fnum y = true -> n_ltb fnum x y = false.
 Proof.
-  intros H. apply f_isnan in H. simpl. rewrite ltb_spec, H. unfold SFltb.
+  intros H. apply f_isnan in H. simpl. rewrite FloatAxioms.ltb_spec, H. unfold SFltb.
   destruct (Prim2SF x); reflexivity.
 Qed.
 
